@@ -121,6 +121,7 @@ func newEncoders() (*encoder.Encoders, encoder.Encoder, error) {
 		{Hint: isaac.ACCEPTBallotFactHint, Instance: isaac.ACCEPTBallotFact{}},
 		{Hint: isaac.EmptyProposalINITBallotFactHint, Instance: isaac.EmptyProposalINITBallotFact{}},
 		{Hint: isaac.EmptyOperationsACCEPTBallotFactHint, Instance: isaac.EmptyOperationsACCEPTBallotFact{}},
+		{Hint: isaac.NotProcessedACCEPTBallotFactHint, Instance: isaac.NotProcessedACCEPTBallotFact{}},
 		{Hint: isaac.SuffrageConfirmBallotFactHint, Instance: isaac.SuffrageConfirmBallotFact{}},
 		{Hint: isaac.INITBallotSignFactHint, Instance: isaac.INITBallotSignFact{}},
 		{Hint: isaac.ACCEPTBallotSignFactHint, Instance: isaac.ACCEPTBallotSignFact{}},
@@ -171,12 +172,14 @@ type ev struct {
 	G     uint64 `json:"g"`
 	Key   string `json:"key"`
 	Fact  string `json:"fact,omitempty"`
+	FKind string `json:"fact_kind,omitempty"`
 	Found bool   `json:"found,omitempty"`
 	Node  string `json:"node,omitempty"`
 }
 
 type wireRec struct {
 	fact string
+	kind string // kind of ballot fact (kinds_test.go)
 	path string
 	seq  uint64
 }
@@ -184,6 +187,13 @@ type wireRec struct {
 type totals struct {
 	mu     sync.Mutex
 	counts map[string]int
+	marks  map[string]bool
+}
+
+func (t *totals) mark(k string) {
+	t.mu.Lock()
+	t.marks[k] = true
+	t.mu.Unlock()
 }
 
 func (t *totals) add(k string, n int) {
@@ -221,8 +231,10 @@ type rig struct {
 	started  int
 	inflight int
 
-	proposals sync.Map // point string -> ProposalSignFact
-	round     string
+	proposals      sync.Map // point string -> ProposalSignFact
+	emptyProposals sync.Map // point string -> the proposal the handler selects has no operations
+	hookKinds      bool     // the handler can be given every kind of fact (hook ballot_kinds_verif.go)
+	round          string
 
 	// histories across stage points (history_test.go)
 	hist       *histState
@@ -283,7 +295,7 @@ func (w bbWrap) Broadcast(bl base.Ballot) error {
 	g.seq++
 	g.events = append(g.events, ev{Seq: g.seq, Kind: "broadcast-call", Path: g.pathOf(gid), G: gid,
 		Key:  g.keyOf(bl.Point(), isaac.IsSuffrageConfirmBallotFact(bl.SignFact().Fact())),
-		Fact: bl.SignFact().Fact().Hash().String(), Node: bl.SignFact().Node().String()})
+		Fact: bl.SignFact().Fact().Hash().String(), FKind: factKind(bl.SignFact().Fact()), Node: bl.SignFact().Node().String()})
 	if h := g.hist; h != nil && bl.SignFact().Node().Equal(g.local.Address()) &&
 		h.key == g.keyOf(bl.Point(), isaac.IsSuffrageConfirmBallotFact(bl.SignFact().Fact())) {
 		h.offered = append(h.offered, bl)
@@ -306,6 +318,7 @@ func (g *rig) onWire(bl base.Ballot) error {
 	}
 	key := g.keyOf(bl.Point(), isaac.IsSuffrageConfirmBallotFact(bl.SignFact().Fact()))
 	fact := bl.SignFact().Fact().Hash().String()
+	kind := factKind(bl.SignFact().Fact())
 	islocal := bl.SignFact().Node().Equal(g.local.Address())
 
 	g.mu.Lock()
@@ -316,8 +329,11 @@ func (g *rig) onWire(bl base.Ballot) error {
 	if path == "" {
 		path = "other"
 	}
+	if islocal {
+		g.tot.add("local_ballots_on_wire_kind_"+kind, 1)
+	}
 	g.seq++
-	g.events = append(g.events, ev{Seq: g.seq, Kind: "wire", Path: path, G: gid, Key: key, Fact: fact, Node: bl.SignFact().Node().String()})
+	g.events = append(g.events, ev{Seq: g.seq, Kind: "wire", Path: path, G: gid, Key: key, Fact: fact, FKind: kind, Node: bl.SignFact().Node().String()})
 	g.tot.add("ballots_on_wire_"+path, 1)
 	if !islocal {
 		g.tot.add("ballots_on_wire_not_signed_by_local", 1)
@@ -329,7 +345,7 @@ func (g *rig) onWire(bl base.Ballot) error {
 			return nil
 		}
 	}
-	g.wires[key] = append(recs, wireRec{fact: fact, path: path, seq: g.seq})
+	g.wires[key] = append(recs, wireRec{fact: fact, kind: kind, path: path, seq: g.seq})
 	if len(recs) > 0 {
 		ps := []string{recs[0].path, path}
 		sort.Strings(ps)
@@ -347,15 +363,16 @@ func (g *rig) onWire(bl base.Ballot) error {
 		if h := g.hist; h != nil && h.key == key && h.phase == 3 {
 			// the conflicting ballot came after ballots of later stage points went
 			// through the broadcaster and the pool
-			g.r.Violation(fmt.Sprintf("equivocation:after-later-heights:%s+%s:stage=%s:sc=%v", recs[0].path, path, stage, sc),
-				fmt.Sprintf("local node %s broadcast two different ballot facts for %s: %s (by %s) and, after %d later stage points up to %d heights above were stored, %s (by %s); case: %s",
-					g.local.Address(), key, recs[0].fact, recs[0].path, h.laterStored, h.k, fact, path, g.round),
+			g.r.Violation(fmt.Sprintf("equivocation:after-later-heights:%s+%s:stage=%s:sc=%v:kinds=%s+%s", recs[0].path, path, stage, sc, recs[0].kind, kind),
+				fmt.Sprintf("local node %s broadcast two different ballot facts for %s: %s (%s fact, by %s) and, after %d later stage points up to %d heights above were stored, %s (%s fact, by %s); case: %s",
+					g.local.Address(), key, recs[0].fact, recs[0].kind, recs[0].path, h.laterStored, h.k, fact, kind, path, g.round),
 				map[string]any{"case": g.round, "key": key, "later_stage_points_stored": h.laterStored, "distance_k": h.k, "events_for_key": tail})
 			return nil
 		}
-		g.r.Violation(fmt.Sprintf("equivocation:%s+%s:stage=%s:sc=%v", ps[0], ps[1], stage, sc),
-			fmt.Sprintf("local node %s broadcast two different ballot facts for %s: %s (by %s) and %s (by %s); round: %s",
-				g.local.Address(), key, recs[0].fact, recs[0].path, fact, path, g.round),
+		// kinds in the order of the broadcast log: kind broadcast first + kind broadcast after it
+		g.r.Violation(fmt.Sprintf("equivocation:%s+%s:stage=%s:sc=%v:kinds=%s+%s", ps[0], ps[1], stage, sc, recs[0].kind, kind),
+			fmt.Sprintf("local node %s broadcast two different ballot facts for %s: %s (%s fact, by %s) and %s (%s fact, by %s); round: %s",
+				g.local.Address(), key, recs[0].fact, recs[0].kind, recs[0].path, fact, kind, path, g.round),
 			map[string]any{"round": g.round, "key": key, "events_for_key": tail})
 	}
 	return nil
@@ -527,15 +544,19 @@ func (g *rig) initVoteproof(point base.Point, prev, proposal util.Hash) (isaac.I
 }
 
 type roundSpec struct {
-	Kind      string `json:"kind"` // INIT | ACCEPT | SC (suffrage confirm, stage INIT)
-	Height    int64  `json:"height"`
-	Remotes   int    `json:"remote_ballots"`
-	Facts     int    `json:"distinct_facts"`
-	Direct    []bool `json:"direct_mimic"`
-	Handler   bool   `json:"handler"`
-	Rebroad   bool   `json:"rebroadcast"`
-	State     string `json:"state"`
-	OtherKeys int    `json:"other_points"`
+	Kind    string `json:"kind"` // INIT | ACCEPT | SC (suffrage confirm, stage INIT)
+	Height  int64  `json:"height"`
+	Remotes int    `json:"remote_ballots"`
+	Facts   int    `json:"distinct_facts"`
+	// kind of each distinct fact (in SC rounds: of the plain INIT ballots for the
+	// same point) and of the ballot the handler makes
+	FactKinds   []string `json:"fact_kinds"`
+	HandlerKind string   `json:"handler_kind,omitempty"`
+	Direct      []bool   `json:"direct_mimic"`
+	Handler     bool     `json:"handler"`
+	Rebroad     bool     `json:"rebroadcast"`
+	State       string   `json:"state"`
+	OtherKeys   int      `json:"other_points"`
 }
 
 func (g *rig) runRound(ri int, spec roundSpec) {
@@ -587,11 +608,18 @@ func (g *rig) runRound(ri int, spec roundSpec) {
 		}
 	}
 
-	facts := make([]util.Hash, spec.Facts)
+	// the distinct facts of the round, each of its kind; several nodes sign the
+	// same fact
+	facts := make([]base.BallotFact, spec.Facts)
 	for i := range facts {
-		facts[i] = g.hash(rng)
+		if stage == base.StageINIT {
+			facts[i] = newINITFact(spec.FactKinds[i], point, prevBlock, g.hash(rng))
+		} else {
+			facts[i] = newACCEPTFact(spec.FactKinds[i], point, ivpProposal, g.hash(rng))
+		}
 	}
-	mk := func(n base.LocalNode, p base.Point, st base.Stage, h util.Hash) (base.Ballot, error) {
+	// fact nil: a ballot for another point p, with a fact of any kind
+	mk := func(n base.LocalNode, p base.Point, st base.Stage, fact base.BallotFact) (base.Ballot, error) {
 		if st == base.StageINIT {
 			v := avp
 			if !p.Equal(point) { // other point: own voteproof
@@ -599,7 +627,10 @@ func (g *rig) runRound(ri int, spec roundSpec) {
 					return nil, err
 				}
 			}
-			sf := isaac.NewINITBallotSignFact(isaac.NewINITBallotFact(p, prevBlock, h, nil))
+			if fact == nil {
+				fact = newINITFact(drawKind(rng, "INIT"), p, prevBlock, g.hash(rng))
+			}
+			sf := isaac.NewINITBallotSignFact(fact.(base.INITBallotFact))
 			if err := sf.NodeSign(n.Privatekey(), g.networkID, n.Address()); err != nil {
 				return nil, err
 			}
@@ -611,7 +642,10 @@ func (g *rig) runRound(ri int, spec roundSpec) {
 				return nil, err
 			}
 		}
-		sf := isaac.NewACCEPTBallotSignFact(isaac.NewACCEPTBallotFact(p, ivpProposal, h, nil))
+		if fact == nil {
+			fact = newACCEPTFact(drawKind(rng, "ACCEPT"), p, ivpProposal, g.hash(rng))
+		}
+		sf := isaac.NewACCEPTBallotSignFact(fact.(base.ACCEPTBallotFact))
 		if err := sf.NodeSign(n.Privatekey(), g.networkID, n.Address()); err != nil {
 			return nil, err
 		}
@@ -647,7 +681,7 @@ func (g *rig) runRound(ri int, spec roundSpec) {
 	// ballots for other stage points in the same round (from other remotes' view)
 	for i := 0; i < spec.OtherKeys; i++ {
 		p := base.RawPoint(spec.Height-2-int64(i), 0) // lower than the round's point, above the previous round's
-		bl, err := mk(g.remotes[rng.Intn(len(g.remotes))], p, stage, g.hash(rng))
+		bl, err := mk(g.remotes[rng.Intn(len(g.remotes))], p, stage, nil)
 		if err == nil {
 			err = bl.IsValid(g.networkID)
 		}
@@ -694,9 +728,11 @@ func (g *rig) runRound(ri int, spec roundSpec) {
 			case "SC":
 				g.handler.PrepareSuffrageConfirmBallot(scvps[rng.Intn(len(scvps))])
 			case "INIT":
+				g.setProposalKind(point, spec.HandlerKind)
+				g.tot.add("handler_asked_for_kind_"+g.handlerKind(spec.HandlerKind), 1)
 				err = g.handler.PrepareNextBlockBallot(avp, g.suf, time.Nanosecond)
 			default:
-				err = g.handler.PrepareACCEPTBallot(ivp, g.hash(rng), time.Nanosecond)
+				err = g.handlerACCEPT(ivp, spec.HandlerKind, g.hash(rng))
 			}
 			if err != nil {
 				g.tot.add("handler_prepare_errors", 1)
@@ -829,8 +865,23 @@ func (g *rig) runRound(ri int, spec roundSpec) {
 	if len(g.wires[key]) > 0 {
 		g.tot.add("stage_points_broadcast_by_local", 1)
 	}
+	// kinds of fact offered for the round's stage point
+	var kinds []string
+	if spec.Kind == "SC" {
+		kinds = append(kinds, kindSC)
+	} else {
+		kinds = append(kinds, spec.FactKinds[:spec.Facts]...)
+	}
+	if spec.Handler && spec.Kind != "SC" {
+		kinds = append(kinds, g.handlerKind(spec.HandlerKind))
+	}
+	sort.Strings(kinds)
+	kinds = uniq(kinds)
+	if len(kinds) >= 2 {
+		g.tot.add("rounds_with_two_or_more_kinds_of_fact_offered", 1)
+	}
 	g.r.SetAdd("interleavings_seen", strings.Join(order, ","))
-	fp := fmt.Sprintf("%s/r%d/f%d/h%v/rb%v/%s/ov%v/%s", spec.Kind, spec.Remotes, spec.Facts, spec.Handler, spec.Rebroad, spec.State, overlap, strings.Join(order, ","))
+	fp := fmt.Sprintf("%s/r%d/f%d/h%v/rb%v/%s/ov%v/kinds=%s/%s", spec.Kind, spec.Remotes, spec.Facts, spec.Handler, spec.Rebroad, spec.State, overlap, strings.Join(kinds, "+"), strings.Join(order, ","))
 	if spec.Facts >= 2 || spec.Handler {
 		g.r.Case(fp)
 	} else {
@@ -859,8 +910,19 @@ func (g *rig) runFaultRound(ri int) {
 	}
 	point := base.RawPoint(int64(1000+10*ri), 0)
 	key := g.keyOf(base.NewStagePoint(point, stage), false)
+	// kinds of fact of the two remote ballots and of the handler's ballot
+	krng := g.r.Rand(40, g.idx, ri)
+	kA, kB, kH := drawKind(krng, kind), drawKind(krng, kind), g.handlerKind(drawKind(krng, kind))
+	firstKind, secondKind := kA, kB
+	if handlerFirst {
+		firstKind = kH
+	}
+	if secondVia == "handler" {
+		secondKind = kH
+	}
 	g.mu.Lock()
-	g.round = fmt.Sprintf("fault rig round %d kind=%s first=%v second=%s", ri, kind, map[bool]string{true: "handler", false: "mimic-direct"}[handlerFirst], secondVia)
+	g.round = fmt.Sprintf("fault rig round %d kind=%s first=%v (%s fact) second=%s (%s fact)", ri, kind,
+		map[bool]string{true: "handler", false: "mimic-direct"}[handlerFirst], firstKind, secondVia, secondKind)
 	startSeq := g.seq
 	started0 := g.started
 	g.mu.Unlock()
@@ -878,15 +940,15 @@ func (g *rig) runFaultRound(ri int) {
 		g.r.Inconclusive("voteproof: " + err.Error())
 		return
 	}
-	mk := func(n base.LocalNode, h util.Hash) base.Ballot {
+	mk := func(n base.LocalNode, h util.Hash, fkind string) base.Ballot {
 		var bl base.Ballot
 		if kind == "INIT" {
-			sf := isaac.NewINITBallotSignFact(isaac.NewINITBallotFact(point, prevBlock, h, nil))
+			sf := isaac.NewINITBallotSignFact(newINITFact(fkind, point, prevBlock, h))
 			if err = sf.NodeSign(n.Privatekey(), g.networkID, n.Address()); err == nil {
 				bl = isaac.NewINITBallot(avp, sf, nil)
 			}
 		} else {
-			sf := isaac.NewACCEPTBallotSignFact(isaac.NewACCEPTBallotFact(point, proposal, h, nil))
+			sf := isaac.NewACCEPTBallotSignFact(newACCEPTFact(fkind, point, proposal, h))
 			if err = sf.NodeSign(n.Privatekey(), g.networkID, n.Address()); err == nil {
 				bl = isaac.NewACCEPTBallot(ivp, sf, nil)
 			}
@@ -896,8 +958,12 @@ func (g *rig) runFaultRound(ri int) {
 		}
 		return bl
 	}
-	blA := mk(g.remotes[0], g.hash(rng))
-	blB := mk(g.remotes[1%len(g.remotes)], g.hash(rng))
+	blA := mk(g.remotes[0], g.hash(rng), kA)
+	if err != nil {
+		g.r.Inconclusive("harness made an invalid ballot: " + err.Error())
+		return
+	}
+	blB := mk(g.remotes[1%len(g.remotes)], g.hash(rng), kB)
 	if err != nil {
 		g.r.Inconclusive("harness made an invalid ballot: " + err.Error())
 		return
@@ -905,9 +971,11 @@ func (g *rig) runFaultRound(ri int) {
 	handlerPrepare := func() {
 		var err error
 		if kind == "INIT" {
+			g.setProposalKind(point, kH)
+			g.tot.add("handler_asked_for_kind_"+kH, 1)
 			err = g.handler.PrepareNextBlockBallot(avp, g.suf, time.Nanosecond)
 		} else {
-			err = g.handler.PrepareACCEPTBallot(ivp, g.hash(rng), time.Nanosecond)
+			err = g.handlerACCEPT(ivp, kH, g.hash(rng))
 		}
 		if err != nil {
 			g.tot.add("handler_prepare_errors", 1)
@@ -995,8 +1063,11 @@ func (g *rig) runFaultRound(ri int) {
 		}
 	}
 	g.tot.add("fault_rounds", 1)
+	if firstKind != secondKind {
+		g.tot.add("fault_rounds_with_two_kinds_of_fact", 1)
+	}
 	g.r.SetAdd("interleavings_seen", "fault:"+strings.Join(order, ","))
-	g.r.Case(fmt.Sprintf("fault/%s/%v/%s/%s", kind, handlerFirst, secondVia, strings.Join(order, ",")))
+	g.r.Case(fmt.Sprintf("fault/%s/%v/%s/kinds=%s+%s/%s", kind, handlerFirst, secondVia, firstKind, secondKind, strings.Join(order, ",")))
 	if len(g.events) > 4000 {
 		g.events = append([]ev{}, g.events[len(g.events)-500:]...)
 	}
@@ -1029,6 +1100,16 @@ func genRound(rng *rand.Rand, height int64, nremotes int, state string) roundSpe
 	s.Handler = rng.Intn(100) < 25
 	s.Rebroad = rng.Intn(100) < 30
 	s.OtherKeys = rng.Intn(3)
+	// kinds of fact: every distinct fact and the handler's ballot draw one of the
+	// kinds valid for the stage
+	fk := s.Kind
+	if fk == "SC" {
+		fk = "INIT" // the plain INIT ballots of a suffrage-confirm round
+	}
+	for i := 0; i < s.Facts; i++ {
+		s.FactKinds = append(s.FactKinds, drawKind(rng, fk))
+	}
+	s.HandlerKind = drawKind(rng, s.Kind)
 	return s
 }
 
@@ -1046,6 +1127,9 @@ func runRig(r *vlib.Run, tot *totals, idx, rounds int, mode string) {
 	nremotes := 2 + rng.Intn(7)
 	if mode == "history" && nremotes < 4 {
 		nremotes = 4 // suffrage confirm ballots need an expelled node and two other remote signers
+	}
+	if mode == "kinds" {
+		nremotes = 2 + rng.Intn(3) // two signers are needed; small suffrage = cheap voteproofs
 	}
 	fault := mode == "fault"
 	g, err := newRig(r, tot, idx, nremotes)
@@ -1073,15 +1157,7 @@ func runRig(r *vlib.Run, tot *totals, idx, rounds int, mode string) {
 
 	h, err := g.st.VerifNewBallotHandler(isaacstates.StateConsensus, isaacstates.VerifBallotHandlerArgs{
 		ProposalSelectFunc: func(_ context.Context, p base.Point, prev util.Hash, _ time.Duration) (base.ProposalSignFact, error) {
-			if v, ok := g.proposals.Load(p.String()); ok {
-				return v.(base.ProposalSignFact), nil
-			}
-			pr := isaac.NewProposalSignFact(isaac.NewProposalFact(p, g.local.Address(), prev, nil))
-			if err := pr.Sign(g.local.Privatekey(), g.networkID); err != nil {
-				return nil, err
-			}
-			v, _ := g.proposals.LoadOrStore(p.String(), pr)
-			return v.(base.ProposalSignFact), nil
+			return g.selectProposal(p, prev)
 		},
 		NodeInConsensusNodesFunc: func(base.Node, base.Height) (base.Suffrage, bool, error) { return g.suf, true, nil },
 		VoteFunc:                 func(bl base.Ballot) (bool, error) { return g.box.Vote(bl) },
@@ -1097,10 +1173,31 @@ func runRig(r *vlib.Run, tot *totals, idx, rounds int, mode string) {
 	}
 	g.handler = h
 	defer h.Exit()
+	g.installHandlerKinds() // before the first ballot is made
+	if !g.hookKinds {
+		tot.add("rigs_without_hook_for_handler_fact_kinds", 1)
+	}
 
 	if fault {
 		for ri := 0; ri < rounds; ri++ {
 			if !r.WithWatchdog(time.Second*60, fmt.Sprintf("fault rig round %d", ri), func() { g.runFaultRound(ri) }) {
+				return
+			}
+		}
+		return
+	}
+
+	if mode == "kinds" {
+		// the directed matrix of kinds of fact: this rig takes every nth case
+		all := genKindPairs(r.Rand(42), r.N(1, 6), r.Quick())
+		n := r.N(3, 6)
+		for ci := idx - 3000; ci < len(all); ci += n {
+			spec := all[ci]
+			spec.State = string(state)
+			if ci == 5 || ci == 6 {
+				r.Sample(map[string]any{"rig": idx, "remotes": nremotes, "kind_pair": spec})
+			}
+			if !r.WithWatchdog(time.Second*180, fmt.Sprintf("kind-pair rig %d case %d", idx, ci), func() { g.runKindPair(ci, spec) }) {
 				return
 			}
 		}
@@ -1135,13 +1232,15 @@ func runRig(r *vlib.Run, tot *totals, idx, rounds int, mode string) {
 func TestC08(t *testing.T) {
 	r := vlib.Start(t, "C08", vlib.LevelExploration)
 	defer r.Finish()
-	r.SetRule("case = one round on a fresh stage point: 2-8 remote suffrage nodes deliver INIT, ACCEPT or suffrage-confirm ballots (1..n distinct facts) concurrently through Ballotbox.Vote or the mimic function, in 25% of rounds the real baseBallotHandler makes and timer-broadcasts the local ballot for the same point, in 30% pooled ballots are re-broadcast, 0-2 ballots for other points; a yield or 1-200us sleep follows every pool check; distinct = (kind, remotes, facts, handler, rebroadcast, state, overlap, observed order of checks and wire broadcasts); non-trivial = at least two distinct facts or the handler takes part; plus 40/400 fault rounds on one extra rig (storage refuses writes during the first local ballot of a point); plus 24/720 history cases on 2/6 extra rigs = history ACROSS stage points: (1) the local ballot for stage point P (INIT/ACCEPT/suffrage-confirm, round 0 or 1, height H) is broadcast through mimic-direct, mimic-box and/or the handler (0-2 remote facts concurrently; refused local ballots are kept), (2) ballots of 1..~10 LATER stage points (later stage/round of H and heights up to H+k, k=1+case%6, in order or shuffled) go through the same broadcaster and pool as the node's own ballots (mimic-direct, mimic-box, handler) or other nodes' ballots (Broadcast + pool.SetBallot), no cleanup step is ever run, (3) a different fact for P is offered through mimic-direct, mimic-box, the handler, re-broadcast of the refused local ballots and of the pooled one, sequentially or concurrently; distinct = (kind, round, path of the first broadcast, refused kept, k, H+k stored, number and paths of later stored stage points, offer paths, concurrent, state); non-trivial (histories_complete) = P was broadcast, a later stage point at H+k is in the pool and at least one offer was made")
+	r.SetRule("case = one round on a fresh stage point: 2-8 remote suffrage nodes deliver INIT, ACCEPT or suffrage-confirm ballots (1..n distinct facts) concurrently through Ballotbox.Vote or the mimic function, in 25% of rounds the real baseBallotHandler makes and timer-broadcasts the local ballot for the same point, in 30% pooled ballots are re-broadcast, 0-2 ballots for other points; a yield or 1-200us sleep follows every pool check; distinct = (kind, remotes, facts, handler, rebroadcast, state, overlap, observed order of checks and wire broadcasts); non-trivial = at least two distinct facts or the handler takes part; plus 40/400 fault rounds on one extra rig (storage refuses writes during the first local ballot of a point); plus 24/720 history cases on 2/6 extra rigs = history ACROSS stage points: (1) the local ballot for stage point P (INIT/ACCEPT/suffrage-confirm, round 0 or 1, height H) is broadcast through mimic-direct, mimic-box and/or the handler (0-2 remote facts concurrently; refused local ballots are kept), (2) ballots of 1..~10 LATER stage points (later stage/round of H and heights up to H+k, k=1+case%6, in order or shuffled) go through the same broadcaster and pool as the node's own ballots (mimic-direct, mimic-box, handler) or other nodes' ballots (Broadcast + pool.SetBallot), no cleanup step is ever run, (3) a different fact for P is offered through mimic-direct, mimic-box, the handler, re-broadcast of the refused local ballots and of the pooled one, sequentially or concurrently; distinct = (kind, round, path of the first broadcast, refused kept, k, H+k stored, number and paths of later stored stage points, offer paths, concurrent, state); non-trivial (histories_complete) = P was broadcast, a later stage point at H+k is in the pool and at least one offer was made; KINDS OF FACT: in all of the above every ballot offered for a stage point (remote facts, the handler's ballot, later stage points, offers) draws its fact from ALL kinds the node signs for the stage (INIT: init | empty-proposal-init; ACCEPT: accept | empty-operations-accept | not-processed-accept; suffrage-confirm: one kind, a stage point of its own with the flag), the handler makes them the way production does (empty proposal selected + the consensus handler's NewINITBallotFactFunc; the ACCEPT fact the voteproof handler hands to prepareACCEPTBallot), the kinds are part of every fingerprint; plus the directed kind matrix on 3/6 extra rigs, 39/702 cases: every ORDERED pair of kinds of a stage (kind broadcast first x kind offered second, 4 INIT + 9 ACCEPT pairs) x ordered pairs of paths (mimic-direct, mimic-box, handler; quick 3 of 9 per pair of kinds rotating, thorough all 9, 6 repeats), sequentially, then re-broadcast of refused local ballots and of the pooled one; distinct = (stage, round, pair of kinds, pair of paths, state, observed order of checks with their answer and wire broadcasts)")
 	r.Assume("every remote signer is in the sync sources and in the suffrage, consensus is allowed, the node is in Syncing or Broken (the preconditions of the mimic path)")
 	r.Assume("only ballots handed to the network function are judged; signing without broadcasting is not")
 	r.Assume("remote ballots pass Ballot.IsValid (checked by the harness for every generated ballot)")
 	r.Assume("fault phase (beyond the property's quantifier, which is schedules only): on one extra rig the pool's leveldb storage refuses every write (hook H3, leveldbstorage.VerifFaultArm) while the first local ballot for a point is made, then works again for a different second one and a re-broadcast; same oracle")
 
 	r.Assume("the pool's periodic cleaner (pool daemon, 33-minute ticker) does not run within a case and the harness never calls a cleanup step: removal of old ballots by expiry is neither produced nor judged")
+
+	r.Assume("the handler is made to sign the special kinds of fact through hook isaac/states/ballot_kinds_verif.go (passthroughs: defaultPrepareACCEPTBallot with a fact, setter of NewINITBallotFactFunc); against a tree without that file the handler makes the ordinary kinds only (handler_makes_every_kind_of_fact=false) and the special kinds come from the mimic path alone")
 
 	if raceEnabled {
 		// zerolog marshals the value of Context.Interface() eagerly, even for a
@@ -1152,7 +1251,7 @@ func TestC08(t *testing.T) {
 	}
 	r.Set("json_encoding_of_pooled_ballots", !raceEnabled)
 
-	tot := &totals{counts: map[string]int{}}
+	tot := &totals{counts: map[string]int{}, marks: map[string]bool{}}
 	rigs := r.N(8, 16)
 	rounds := r.N(25, 313) // 200 / 5008 rounds
 	var wg sync.WaitGroup
@@ -1180,10 +1279,32 @@ func TestC08(t *testing.T) {
 			runRig(r, tot, 2000+i, hcases, "history")
 		}(i)
 	}
+	// directed matrix of kinds of fact: every ordered pair of kinds x pairs of paths
+	for i := 0; i < r.N(3, 6); i++ {
+		wg.Add(1)
+		go func(i int) {
+			defer wg.Done()
+			runRig(r, tot, 3000+i, 0, "kinds")
+		}(i)
+	}
 	wg.Wait()
 
 	tot.mu.Lock()
 	defer tot.mu.Unlock()
+	var pairsDone, pairsMissing []string
+	for _, k := range allKindPairs() {
+		if tot.marks["kindpair:"+k] {
+			pairsDone = append(pairsDone, k)
+		} else {
+			pairsMissing = append(pairsMissing, k)
+		}
+	}
+	r.Set("ordered_kind_pairs_first_broadcast_then_second_offered", pairsDone)
+	r.Set("handler_makes_every_kind_of_fact", tot.counts["rigs_without_hook_for_handler_fact_kinds"] == 0)
+	r.Set("ordered_kind_pairs_not_driven", pairsMissing)
+	if len(pairsMissing) > 0 && tot.counts["rigs_without_hook_for_handler_fact_kinds"] == 0 {
+		r.Inconclusive(fmt.Sprintf("ordered pairs of kinds of fact never driven (first kind on the wire, then the second kind offered): %v", pairsMissing))
+	}
 	keys := make([]string, 0, len(tot.counts))
 	for k := range tot.counts {
 		keys = append(keys, k)
